@@ -66,6 +66,45 @@ def M.apply (m : M) (sig : List Pixel) : List Pixel := sig.map fun p => ⟨p.lab
 /-- `CombinedModel.__call__`: the models one after the other -/
 def applyAll (ms : List M) (sig : List Pixel) : List Pixel := ms.foldl (fun s m => m.apply s) sig
 
+/-! ### the generic label-wise wrapper `HeterogeneousModel(obj, labels)` -/
+
+/-- one (homogeneous) model per label index; pixel `p` runs through the model of its label
+(`output[mask] = self[label](signal[mask])`; labels outside the list give the initial 0) -/
+def wrapApplyPix (ms : List M) (p : Pixel) : Rat :=
+  match ms[p.label]? with
+  | some m => m.applyPix p
+  | none => 0
+
+def wrapApply (ms : List M) (sig : List Pixel) : List Pixel := sig.map fun p => ⟨p.label, wrapApplyPix ms p⟩
+
+/-! ### `cv2.resize(labels, (W, H), interpolation=cv2.INTER_NEAREST)` -/
+
+/-- source index of destination index `x` when `n` entries are resized to `N` -/
+def nearIdx (n N x : Nat) : Nat := min (x * n / N) (n - 1)
+
+/-- nearest-neighbour resize of a row-major `h × w` map to `H × W` -/
+def resizeNearest (src : List (List Nat)) (H W : Nat) : List (List Nat) :=
+  let h := src.length
+  (List.range H).map fun i =>
+    let row := listGetD src (nearIdx h H i) []
+    (List.range W).map fun j => listGetD row (nearIdx row.length W j) 0
+
+/-- `HeterogeneousLinearModel.__call__`: the label map in force for a signal of shape `H × W` -/
+def labelsFor (labels : List (List Nat)) (H W : Nat) : List (List Nat) :=
+  if labels.length = H ∧ (listGetD labels 0 []).length = W then labels else resizeNearest labels H W
+
+/-- `arr.shape[:2]` of a row-major map -/
+def shapeOf (m : List (List Nat)) : Nat × Nat := (m.length, (listGetD m 0 []).length)
+
+/-- one call of `HeterogeneousLinearModel` with a signal of shape `H × W`: the cached label map afterwards
+(`if img.shape[:2] != cached.shape[:2]: cached = cv2.resize(self.labels, …)` — from the ORIGINAL labels) -/
+def cacheStep (orig cached : List (List Nat)) (H W : Nat) : List (List Nat) :=
+  if shapeOf cached = (H, W) then cached else resizeNearest orig H W
+
+/-- the cached label map after a sequence of calls (initially a copy of the labels) -/
+def cacheRun (orig : List (List Nat)) (shapes : List (Nat × Nat)) : List (List Nat) :=
+  shapes.foldl (fun c hw => cacheStep orig c hw.1 hw.2) orig
+
 /-! ### parameter routing -/
 
 def M.numParams : M → Nat
